@@ -156,3 +156,57 @@ func TestMechanismOwnerDeadline(t *testing.T) {
 		}
 	}
 }
+
+// holdCase: phase 0 serves set0 and holds the finished download; phase 1 serves set1 (ed1 added). unholdAt = position of
+// the "unhold" event among {arrive 0 (token of the newly served key), arrive 1 (cached key), arrive 2 (unknown kid), release}.
+func holdCase(unholdAt int) Case {
+	set0 := []JWK{{Key: "p256a", Kid: "p256a", Use: "sig"}}
+	set1 := []JWK{{Key: "p256a", Kid: "p256a", Use: "sig"}, {Key: "ed1", Kid: "ed1", Use: "sig"}}
+	cur := Caller{Kind: "cur", Key: "p256a", Alg: "ES256", Kid: "p256a"}
+	next := Caller{Kind: "next", Key: "ed1", Alg: "EdDSA", Kid: "ed1"}
+	unk := Caller{Kind: "unknown", Key: "ed2", Alg: "EdDSA", Kid: "nope-1"}
+	evs := []Event{{"arrive", 0}, {"arrive", 1}, {"arrive", 2}, {"release", 0}}
+	evs = append(append(append([]Event{}, evs[:unholdAt]...), Event{Op: "unhold"}), evs[unholdAt:]...)
+	return Case{Sets: [][]JWK{set0, set1}, Phases: []Phase{
+		{Mode: "sched", Fetch: Doc{Kind: "serve", Set: 0}, Callers: []Caller{cur, cur}, Events: []Event{{"arrive", 0}, {"arrive", 1}, {"release", 0}}, Hold: true},
+		{Mode: "sched", Fetch: Doc{Kind: "serve", Set: 1}, Callers: []Caller{next, cur, unk}, Events: evs},
+	}}
+}
+
+// TestMechanismHold (needs -tags verif): the hold hook parks exactly the goroutine of the download that the release answered,
+// after its waiters returned; "unhold" before the first arrival of the next phase is the schedule without Hold; with callers
+// arriving while it is parked the verdicts are the same (the outcome may differ between a tree that frees the in-flight slot
+// before and one that frees it after the waiters are woken: only the latter shows C13:stale-result-of-finished-download).
+func TestMechanismHold(t *testing.T) {
+	for unholdAt := 0; unholdAt <= 4; unholdAt++ {
+		for round := 0; round < 20; round++ {
+			lastWorld = nil
+			keepWorld = true
+			res := run(holdCase(unholdAt))
+			keepWorld = false
+			w := lastWorld
+			sum := res.Info.(*summary)
+			b, _ := json.Marshal(sum.Verdicts)
+			if w.heldTotal < 1 || w.held != 0 || w.updStart != w.updEnd {
+				t.Fatalf("unhold@%d round %d: heldTotal=%d held=%d downloads %d/%d", unholdAt, round, w.heldTotal, w.held, w.updEnd, w.updStart)
+			}
+			if sum.Verdicts["must-accept:fetch"] != 3 || sum.Verdicts["must-accept:cache"] != 1 || sum.Verdicts["must-reject:unknown-kid"] != 1 {
+				t.Fatalf("unhold@%d round %d: verdicts %s", unholdAt, round, b)
+			}
+			if !strings.HasPrefix(sum.phaseSig[0], "OWR2H1/") {
+				t.Fatalf("unhold@%d round %d: phase signature %q", unholdAt, round, sum.phaseSig[0])
+			}
+			for _, v := range res.Viol {
+				if v.FP != "C13:stale-result-of-finished-download" || unholdAt == 0 {
+					t.Fatalf("unhold@%d round %d: %v", unholdAt, round, res.Viol)
+				}
+			}
+			if len(res.Viol) == 0 && sum.Requests != 2 {
+				t.Fatalf("unhold@%d round %d: %d requests, want 2", unholdAt, round, sum.Requests)
+			}
+			if testing.Verbose() && round == 0 {
+				fmt.Printf("--- unhold@%d: %v %v\n%s\n", unholdAt, sum.phaseSig, len(res.Viol), strings.Join(w.trace, "\n"))
+			}
+		}
+	}
+}
